@@ -7,7 +7,7 @@ THEOREMS = [
     "Lou.C06.fwd_stage_order_doc", "Lou.C06.fwd_stage_chain", "Lou.C06.back_stage_order", "Lou.C06.fwd_map_compose",
     "Lou.C06Pass.fwdTest_bounds", "Lou.C06Pass.select_first", "Lou.C06Pass.select_best", "Lou.C06Pass.fwdAction_ok",
     "Lou.C06Pass.fwdAction_replaces_brackets", "Lou.C06Pass.fwdStage_contract", "Lou.C06Pass.fwdStage_total",
-            "Lou.C06Pass.backTest_bounds", "Lou.C06Pass.backStage_contract", "Lou.C06Pass.backStage_total",
+            "Lou.C06Pass.backTest_bounds", "Lou.C06Pass.backStage_contract", "Lou.C06Pass.backStage_total", "Lou.C06Pass.backAction_replaces_brackets",
 ]
 
 CLAIM = dict(
@@ -30,8 +30,12 @@ CLAIM = dict(
           "rule, the earliest defined among those (select_best); an action of literals appends the matched characters before "
           "the bracket verbatim, then the rule's literals, and continues at endReplace (fwdAction_replaces_brackets); the "
           "stage result satisfies the engine contract E1-E4 and the 2n+2 iteration bound is never reached "
-          "(fwdStage_contract, fwdStage_total). The backward stage model is tied by the differential only; rules with "
-          "attributes, classes, swap, grouping, search or variables are outside the model (the driver answers UNSUPPORTED)."),
+          "(fwdStage_contract, fwdStage_total); the backward interpreter and scanner have the corresponding theorems "
+          "(backTest_bounds, backAction_replaces_brackets, backStage_contract, backStage_total; select_first/select_best are "
+          "stated for both directions). The model covers literals, first/last/look-back, negation, attribute operands with "
+          "counts, pass variables, replace brackets, literal/omit/copy actions and forward swap (the DUMP replaces the arena "
+          "offsets embedded in the byte-code by rule indices); grouping, the look-ahead search and backward swap make a stage "
+          "UNSUPPORTED (skipped). Stages of shipped and wide generated tables are compared too."),
     technique="Lean 4 proof (driver model; stage scanner and literal pass interpreter model) + H4 trace validation per call and per stage + independent recomposition oracle",
     design="DESIGN.md §7 C06")
 
